@@ -26,9 +26,18 @@ for name in sorted(os.listdir(os.path.join(HERE, "seeded"))):
             rows.append((name, "PATCH DOES NOT APPLY", ""))
             continue
         env = dict(os.environ, CINCO_SRC=wt)
-        p = subprocess.run(["./check", pid, "--tier", "quick", "--no-evidence"], cwd=HERE, env=env, capture_output=True, text=True)
-        sigs = sorted(set(re.findall(r"signature=(\S+)", p.stdout)))
-        nviol = len(re.findall(r"^VIOLATION", p.stdout, re.M))
+        if meta.get("not_claimed"):
+            rows.append((name, "not claimed", meta.get("note", "")[:110]))
+            continue
+        sigs, nviol, rc = [], 0, 0
+        for judge in meta.get("judged_by") or [pid]:
+            p = subprocess.run(["./check", judge, "--tier", "quick", "--no-evidence"], cwd=HERE, env=env, capture_output=True, text=True)
+            sigs += sorted(set(re.findall(r"signature=(\S+)", p.stdout)))
+            nviol += len(re.findall(r"^VIOLATION", p.stdout, re.M))
+            rc = max(rc, p.returncode)
+        class _P:      # noqa: E701 - keeps the lines below unchanged
+            returncode = rc
+        p = _P
         meta["check"] = {"command": "CINCO_SRC=<worktree with patch> ./check %s --tier quick" % pid, "exit": p.returncode,
                          "violation_lines": nviol, "signatures": sigs[:6], "detected": nviol > 0 and p.returncode == 1}
         json.dump(meta, open(os.path.join(d, "meta.json"), "w"), indent=1)
@@ -37,4 +46,5 @@ for name in sorted(os.listdir(os.path.join(HERE, "seeded"))):
         subprocess.run(["git", "-C", "/repo", "worktree", "remove", "--force", wt])
 for r in rows:
     print("%-8s %-22s %s" % r)
-print("%d/%d detected" % (sum(1 for r in rows if r[1] == "detected"), len(rows)))
+claimed = [r for r in rows if r[1] != "not claimed"]
+print("%d/%d detected (%d not claimed)" % (sum(1 for r in claimed if r[1] == "detected"), len(claimed), len(rows) - len(claimed)))
